@@ -95,6 +95,25 @@ def _job(job):
             v2 = fmt(c, 'text')
             for a2, g2 in ((age + 1, g), (age - 1, g), (age, 'F' if g == 'M' else 'M')):
                 call(lambda v_: athlib.tyrving_score(g2, a2, ev, v_), v2)
+        # ... and calls the function refuses (rule 4: a refusal must leave nothing behind either): junk marks, an unknown
+        # event / gender / competition type / age with the same mark
+        vt = fmt(c, 'text')
+        for junk in ('', 'abc', '1:2:3:4', None, '-1', 'nan'):
+            call(fn, junk)
+        if sys_ == 'tyrving':
+            call(lambda v_: athlib.tyrving_score(g, age, 'NOSUCH', v_), vt)
+            call(lambda v_: athlib.tyrving_score('X', age, ev, v_), vt)
+            call(lambda v_: athlib.tyrving_score(g, 99, ev, v_), vt)
+            call(lambda v_: athlib.tyrving_score(g, 'x', ev, v_), vt)
+        elif sys_ == 'qkids':
+            call(lambda v_: athlib.qkids_score(ct, 'NOSUCH', v_), vt)
+            call(lambda v_: athlib.qkids_score('NOSUCH', ev, v_), vt)
+        elif sys_ == 'sportshall':
+            call(lambda v_: athlib.sportshall_score('NOSUCH', v_), vt)
+        else:
+            call(lambda v_: athlib.bulgarian_score(ag, gg, 'NOSUCH', v_), vt)
+            call(lambda v_: athlib.bulgarian_score(ag, 'X', ev, v_), vt)
+            call(lambda v_: athlib.bulgarian_score('U99', gg, ev, v_), vt)
     for i, c in enumerate(marks):
         v = fmt(c, form)
         if v is None:
